@@ -158,6 +158,10 @@ def abi_check(chk, lean_ok):
                     chk.violations.append({"replay": path, "signature": "asan", "why": "AddressSanitizer report"})
     finally:
         shutil.rmtree(scratch, ignore_errors=True)
+    # status codes actually delivered through the C struct for each outcome, over lifecycle histories
+    hcov = chk.history_check(lean_ok)
+    evals += hcov.get("evaluations", 0)
+    cov["history_campaign"] = {k: hcov.get(k) for k in ("evaluations", "steps_compared", "monitor_rejections", "ret_kinds")}
     cov.update(evaluations=evals, distinct_nontrivial=len(dart) + len(got),
                rule="every symbol the Dart bindings look up (nm -D of the built cdylib), every C-visible struct (sizeof/offsetof from a C compiler vs the Lean layout model), "
                     "the five constants, and an alloc/free call sequence over every function returning owned memory under valgrind memcheck",
